@@ -353,7 +353,8 @@ def run_traced(spec, fault=None, gp_faults=None, predict_faults=None, ei_script=
                 ev.append(("ESSCRIPT", {"k": k}))
         state["es_empty"] = np.size(r[0]) == 0        # the improvement of an empty search is not an oracle value: never scripted
         ev.append(("HEDGE", {"prob": _vec(self.prob), "chosen": int(np.asarray(self.chosen_hedge).reshape(-1)[0]), "g": _vec(self.g),
-                             "gamma": float(self.gamma), "n": int(self.n_funs), "u_out": _vec(r[0]), "z_out": _f(r[1])}))
+                             "gamma": float(self.gamma), "n": int(self.n_funs), "u_out": _vec(r[0]), "z_out": _f(r[1]),
+                             "fcns": [[str(f[0]), int(f[1])] for f in self.search_fcns]}))
         return r
 
     o_reh = bb.BADS._re_evaluate_history_
@@ -391,6 +392,7 @@ def run_traced(spec, fault=None, gp_faults=None, predict_faults=None, ei_script=
 
     # ---- GP training sets / acquisition -------------------------------------------------------
     if "gp" in want or gp_faults or update_faults or add_faults:
+        state["fault_where"] = spec.get("fault_where")      # "late": an injected fit failure happens in the fit's final posterior computation
         _install_gp_wrappers(patch, state, ev, bb, gpt, es, gp_faults, update_faults, add_faults)
     if predict_faults:
         # non-finite GP prediction at the incumbent: the k-th call of _get_target_from_gp_ sees NaN predictions
@@ -542,6 +544,13 @@ def _install_gp_wrappers(patch, state, ev, bb, gpt, es, gp_faults, update_faults
     o_lgf = gpt.local_gp_fitting
 
     def w_lgf(gp, current_point, function_logger, options, optim_state, iteration_history, refit_flag):
+        import sys as _sys
+        # is the object being refitted the surrogate the run carries on with (the caller's `gp`), or a throw-away copy (`new_gp`, `tmp_gp`:
+        # the what-if estimate at a search point of a noisy run, the re-evaluation of the history)?
+        try:
+            is_main = _sys._getframe(1).f_locals.get("gp") is gp
+        except Exception:
+            is_main = True
         state["in_lgf"] = True
         try:
             r = o_lgf(gp, current_point, function_logger, options, optim_state, iteration_history, refit_flag)
@@ -550,7 +559,7 @@ def _install_gp_wrappers(patch, state, ev, bb, gpt, es, gp_faults, update_faults
         g = r[0]
         ev.append(("LOCALFIT", {"refit": bool(refit_flag), "exit": _f(r[1]), "nX": int(g.X.shape[0]), "ny": int(g.y.shape[0]),
                                 "s2": None if g.s2 is None else _vec(g.s2), "phase": state["phase"][-1],
-                                "X": _rows(g.X), "y": _vec(g.y)}))
+                                "X": _rows(g.X), "y": _vec(g.y), "main": bool(is_main)}))
         return r
 
     patch(gpt, "local_gp_fitting", w_lgf)
@@ -604,7 +613,15 @@ def _install_gp_wrappers(patch, state, ev, bb, gpt, es, gp_faults, update_faults
         ev.append(("FIT", e))
         if gp_faults and i in gp_faults:
             e["fault"] = True
-            raise np.linalg.LinAlgError("injected: matrix not positive definite")
+            if state.get("fault_where") != "late":
+                raise np.linalg.LinAlgError("injected: matrix not positive definite")
+            # the failure happens at the END of the fit: the hyper-parameter optimisation runs, the Cholesky factorisation of the final posterior fails
+            e["late"] = True
+            state["late_fault"] = True
+            try:
+                return o_fit(self, X, y, s2, hyp0=hyp0, options=options, **kw)
+            finally:
+                state["late_fault"] = False
         try:
             return o_fit(self, X, y, s2, hyp0=hyp0, options=options, **kw)
         except np.linalg.LinAlgError:
@@ -614,6 +631,18 @@ def _install_gp_wrappers(patch, state, ev, bb, gpt, es, gp_faults, update_faults
             raise
 
     patch(GP, "fit", w_fit)
+
+    if state.get("fault_where") == "late":
+        o_core = GP._GP__core_computation
+
+        def w_core(self, *a, **kw):
+            import sys as _sys
+            fr = _sys._getframe(1)
+            if state.get("late_fault") and fr.f_code.co_name == "update" and fr.f_back is not None and fr.f_back.f_code.co_name == "fit":
+                raise np.linalg.LinAlgError("injected: matrix not positive definite (posterior of the fitted hyper-parameters)")
+            return o_core(self, *a, **kw)
+
+        patch(GP, "_GP__core_computation", w_core)
 
     if add_faults:
         # LinAlgError in the k-th posterior update made by add_and_update_gp (adding one evaluated point to the surrogate)
